@@ -24,7 +24,7 @@ theorem queueRest_spec {pr : PrInfo} : ∀ (ds : List Dest) {l l' : Loc} {prevQ 
     | some wc =>
       rw [hw] at hm
       simp only at hm
-      cases hm1 : l.merge (.q d) [wc, prevQ] with
+      cases hm1 : l.mergeN pr.noOct (.q d) wc prevQ with
       | none => simp [hm1] at hm
       | some l1 =>
         rw [hm1] at hm
@@ -35,7 +35,7 @@ theorem queueRest_spec {pr : PrInfo} : ∀ (ds : List Dest) {l l' : Loc} {prevQ 
           rcases hs with rfl | rfl
           · exact hl.valid _ _ hw
           · exact hp
-        obtain ⟨hl1, hext1, hsame1, o, n, ho, hn, hon, hsn⟩ := Loc.merge_spec hl hsrcs hm1
+        obtain ⟨hl1, hext1, hsame1, o, n, ho, hn, hon, hsn⟩ := Loc.mergeN_spec hl hsrcs hm1
         rw [hn] at hm
         simp only at hm
         have hnlt : n < l1.g.size := hl1.valid _ _ hn
